@@ -70,15 +70,16 @@ def eval : Term → Res F
   | .app f as => .err (notEvaluable f as.length)
 
 /-- the kernels a comparison predicate dispatches to, by the Prolog name of the predicate
-    (Integer×Integer, Integer×Float, Float×Integer, Float×Float) -/
+    (Integer×Integer, Integer×Float, Float×Integer, Float×Float); `U.k F` is the translated kernel `k`
+    with `F` passed explicitly (Generated.Arith.U) -/
 def cmpKernels (op : String) : Option ((I64 → I64 → Bool) × (I64 → F → Bool) × (F → I64 → Bool) × (F → F → Bool)) :=
   match op with
-  | "=:=" => some (eqI, eqIF, eqFI, eqF)
-  | "=\\=" => some (neqI, neqIF, neqFI, neqF)
-  | "<" => some (lssI, lssIF, lssFI, lssF)
-  | "=<" => some (leqI, leqIF, leqFI, leqF)
-  | ">" => some (gtrI, gtrIF, gtrFI, gtrF)
-  | ">=" => some (geqI, geqIF, geqFI, geqF)
+  | "=:=" => some (U.eqI F, U.eqIF F, U.eqFI F, U.eqF F)
+  | "=\\=" => some (U.neqI F, U.neqIF F, U.neqFI F, U.neqF F)
+  | "<" => some (U.lssI F, U.lssIF F, U.lssFI F, U.lssF F)
+  | "=<" => some (U.leqI F, U.leqIF F, U.leqFI F, U.leqF F)
+  | ">" => some (U.gtrI F, U.gtrIF F, U.gtrFI F, U.gtrF F)
+  | ">=" => some (U.geqI F, U.geqIF F, U.geqFI F, U.geqF F)
   | _ => none
 
 def compareNums (k : (I64 → I64 → Bool) × (I64 → F → Bool) × (F → I64 → Bool) × (F → F → Bool)) : Num F → Num F → Bool
